@@ -723,6 +723,15 @@ func genItCase(t *rapid.T) itCase {
 		c.N = rapid.IntRange(0, maxN).Draw(t, "n")
 	case "MultisetPermutations":
 		l := rapid.IntRange(0, 5).Draw(t, "len")
+		if rapid.IntRange(0, 3).Draw(t, "manytypes") == 0 {
+			// 8, 16, 17... types, most of them absent: few elements in total, long frequency vector
+			l = rapid.SampledFrom([]int{7, 8, 9, 15, 16, 17, 24, 32}).Draw(t, "ntypes")
+			c.M = make([]int, l)
+			for k := rapid.IntRange(0, 6).Draw(t, "nelems"); k > 0; k-- {
+				c.M[rapid.IntRange(0, l-1).Draw(t, "which")]++
+			}
+			return c
+		}
 		c.M = make([]int, l)
 		tot := 0
 		for i := range c.M {
@@ -798,6 +807,20 @@ func enumItBoundaries(yield func(itCase) bool) {
 			if !yield(itCase{Iter: "Partitions", N: n, M: []int{}}) {
 				return
 			}
+		}
+	}
+	// ten and more blocks (115975 partitions of a 10-set; thorough also 11)
+	for n := 9; n <= sz(10, 11); n++ {
+		if !yield(itCase{Iter: "Partitions", N: n, M: []int{}}) {
+			return
+		}
+	}
+	// multiplicity vectors of 8, 16, 17 types
+	for _, l := range []int{8, 16, 17} {
+		m := make([]int, l)
+		m[0], m[l-1], m[l/2] = 1, 2, 1
+		if !yield(itCase{Iter: "MultisetPermutations", M: m}) || !yield(itCase{Iter: "MultisetCombinations", M: m, K: 2}) {
+			return
 		}
 	}
 	// all multiplicity / factor vectors of length <= 3 with entries 0..2 (factors also -1 and 3)
